@@ -451,6 +451,14 @@ pub fn run(tier: Tier) -> i32 {
         ("catch-all-defaults/on-reuse", r##"<svg><defaults><_ k="1"/></defaults><specs><text id="t" text="[$k]"/></specs><var k="2"/><reuse href="#t"/><text text="[$k]"/></svg>"##, vec!["[2]", "[2]"]),
         ("catch-all-defaults/on-reused-group", r##"<svg><defaults><_ k="1"/></defaults><specs><g id="gg"><text text="[$k]"/></g></specs><var k="2"/><reuse href="#gg"/></svg>"##, vec!["[2]"]),
         ("catch-all-defaults/on-group", r##"<svg><defaults><_ k="1"/></defaults><var k="2"/><g><text text="[$k]"/></g></svg>"##, vec!["[2]"]),
+        // a <reuse> whose first attempt fails at any stage gives its locals back (the template refers forward by size,
+        // by position, by a relative attribute; the reuse itself refers forward)
+        ("reuse-retried/template-size-reference", r##"<svg><var k="1"/><specs><rect id="t" width="#later~w" height="2"/></specs><reuse href="#t" k="7"/><text text="[$k]"/><rect id="later" wh="3"/></svg>"##, vec!["[1]"]),
+        ("reuse-retried/template-size-reference-undefined", r##"<svg><specs><rect id="t" wh="#later" rx="1"/></specs><reuse href="#t" k="7"/><text text="[$k]"/><rect id="later" wh="3"/></svg>"##, vec!["[$k]"]),
+        ("reuse-retried/template-position-reference", r##"<svg><var k="1"/><specs><rect id="t" xy="#later|h" wh="2"/></specs><reuse href="#t" k="7"/><text text="[$k]"/><rect id="later" wh="3"/></svg>"##, vec!["[1]"]),
+        ("reuse-retried/template-text-reference", r##"<svg><var k="1"/><specs><rect id="t" wh="2" text="{{#later~w}}"/></specs><reuse href="#t" k="7"/><text text="[$k]"/><rect id="later" wh="3"/></svg>"##, vec!["3", "[1]"]),
+        ("reuse-retried/reuse-position-reference", r##"<svg><var k="1"/><specs><rect id="t" wh="2"/></specs><reuse href="#t" k="7" xy="#later|v 1"/><text text="[$k]"/><rect id="later" wh="3"/></svg>"##, vec!["[1]"]),
+        ("reuse-retried/group-template", r##"<svg><var k="1"/><specs><g id="t"><rect xy="#later|h" wh="2"/></g></specs><reuse href="#t" k="7"/><text text="[$k]"/><rect id="later" wh="3"/></svg>"##, vec!["[1]"]),
         ("nested-group-shadowing", r#"<svg><g v="1"><g v="2"><text text="[$v]"/></g><text text="[$v]"/></g><text text="[$v]"/></svg>"#, vec!["[2]", "[1]", "[$v]"]),
     ];
     let st = run_space(scenarios.len(), |i| {
